@@ -440,14 +440,31 @@ def run(prop, tier, seed, replay):
             zplain = os.path.join(base, 'plainzip' + ext)
             shutil.copy(zpath, zplain)
             inputs.append(('zip-bytes-under-plain-name', zplain))
-            for what, path in inputs:
+            # ... and the other ways into parse(): a well-formed single-member archive (the member is extracted and read),
+            # a name whose extension no reader is registered for, and the `architecture` argument (a primitive library
+            # read by a second, nested Verilog parse after the first one; EBLIF then re-derives its instance names)
+            zgood = os.path.join(base, 'good' + ext + '.zip')
+            with zipfile.ZipFile(zgood, 'w') as z:
+                z.writestr('good' + ext, TINY[fmt])
+            inputs.append(('zip-valid-member', zgood))
+            upath = os.path.join(base, 'design' + ext + '.txt')
+            open(upath, 'w').write(TINY[fmt])
+            inputs.append(('unknown-extension', upath))
+            gpath = os.path.join(base, 'good' + ext)
+            open(gpath, 'w').write(TINY[fmt])
+            arch = os.path.join(common.REPO, 'spydrnet', 'support_files', 'architecture_libraries', 'yosys_internal_cells.v.zip')
+            if fmt != 'edif' and os.path.exists(arch):
+                inputs.append(('with-architecture', gpath, {'architecture': arch}))
+                inputs.append(('with-missing-architecture', gpath, {'architecture': os.path.join(base, 'nosuch_arch.v')}))
+            for what, path, *kw in inputs:
+                kw = kw[0] if kw else {}
                 for start_pol in ('DEFAULT', 'EDIF'):
                     total += 1
                     sdn.namespace_manager.default = start_pol
                     signal.signal(signal.SIGALRM, _alarm)
                     signal.setitimer(signal.ITIMER_REAL, B['timeout'])
                     try:
-                        sdn.parse(path)
+                        sdn.parse(path, **kw)
                         out = 'returned'
                     except Timeout:
                         out = 'timeout'
